@@ -376,6 +376,9 @@ def backup2 (t1 : Item) : FP Unit := liftP (Parser.backup2 t1)
 def peek : FP Item := liftP Parser.peek
 def errorf {α : Type} : FP α := liftP Parser.errorf
 def unexpected {α : Type} (tok : Item) : FP α := liftP (Parser.unexpected tok)
+/-- `t.errorfAt(pos, …)`: an error that belongs to a node already parsed, at that node's position
+    (`t.token[0], t.peekCount = item{pos: pos}, 0; t.errorf(…)`, /repo a4cef1c) -/
+def errorfAt {α : Type} (pos : Nat) : FP α := fun _ => .error (.err pos)
 def expect (t : ItemType) : FP Item := liftP (Parser.expect t)
 def tail1 (s : Bytes) : FP Bytes := liftP (Parser.tail1 s)
 
@@ -686,7 +689,7 @@ def pluralCases : NodeList → NodeList → Option Node → FP (NodeList × Opti
       | v :: more =>
         match v, more with
         | .int _ n, [] => pluralCases rest (cases.append (.cons (.pluralCase pos n body) .nil)) dflt
-        | _, _ => errorf
+        | _, _ => errorfAt pos      -- "plural case must be a single integer", at the case node
     | _ => ffail .panic
 
 mutual
@@ -1031,7 +1034,7 @@ mutual
         | .switch pos value cases => do
           let (pcs, dflt) ← pluralCases cases .nil none
           match dflt with
-          | none => errorf
+          | none => errorfAt pos    -- "{default} case required", at the plural node
           | some d => pure (.plural pos value pcs d)
         | _ => ffail .panic
 end
